@@ -36,6 +36,7 @@ INF = float("inf")
 PS = [1, 2, INF]
 
 OBLIGATIONS = {
+    "points_a_few_hundredths_of_a_millimetre_apart": "tracks on a lattice of 0.03 mm step (distinct points, closer than 1e-4 m) were matched",
     "long_pair": "a pair whose distance table has more than 128 cells (12 x 11, 7 x 19, 16 x 16, 3 x 50) was matched",
     "exponent_as_numpy_scalar": "p = 1 and p = 2 were also passed as numpy.int64 and numpy.float64",
     "rematch_of_a_matching": "a returned matching (track 1 with its match features) was matched again as first track",
@@ -60,6 +61,8 @@ MODES = {"dtw": CMP.MODE_MATCHING_DTW, "fdtw": CMP.MODE_MATCHING_FDTW, "frechet"
 def _space(name):
     if name == "3x2":
         return 2, [(x, y, 0) for x in range(3) for y in range(2)], (1, 2, 3)
+    if name == "3x2creep":      # the 3x2 lattice at a step of 0.03 mm, no offset: distinct points closer than any "same
+        return 2, [(x, y, 0, "c") for x in range(3) for y in range(2)], (1, 2)     # position" tolerance a helper may apply
     if name == "2x2":
         return 2, [(x, y, 0) for x in range(2) for y in range(2)], (1, 2, 3, 4)
     if name == "axis":          # dim 1: only U counts; x differs so that it would show if it were used
@@ -70,7 +73,7 @@ def _space(name):
 
 
 def _spaces(tier):
-    return ["3x2", "axis", "xz"] + (["2x2"] if tier == "thorough" else ["2x2small"])
+    return ["3x2", "axis", "xz", "3x2creep"] + (["2x2"] if tier == "thorough" else ["2x2small"])
 
 
 def _tracks(name, variant):
@@ -142,7 +145,12 @@ def couplings(n2, n1):
     return _COUPLINGS[key]
 
 
+CREEP = 2.0 ** -15
+
+
 def coords(variant, pt):
+    if len(pt) > 3:
+        return (pt[0] * CREEP, pt[1] * CREEP, pt[2] * CREEP)
     x, y = alpha.xy(variant, pt[0], pt[1])
     return (x, y, alpha.scale(variant) * pt[2])
 
@@ -328,6 +336,8 @@ def check_pair(variant, A, B, p, dim, ctx):
         ctx.oblige("tie_u_eq_l_lt_ul")
     if other:
         ctx.oblige("tie_other")
+    if len(A[0]) > 3:
+        ctx.oblige("points_a_few_hundredths_of_a_millimetre_apart")
     if len(A) != len(B):
         ctx.oblige("unequal_sizes")
     if min(len(A), len(B)) == 1 and max(len(A), len(B)) > 1:
@@ -436,7 +446,7 @@ def plan(tier, variant):
     for nA, nB in LONG_SIZES[tier]:
         for pi in range(len(PS)):
             sh.append({"variant": variant, "space": "long", "sizes": [nA, nB], "p": pi, "lo": 0})
-    order = {"long": -1, "axis": 0, "xz": 1, "3x2": 2, "2x2small": 3, "2x2": 4}
+    order = {"long": -1, "3x2creep": 0.5, "axis": 0, "xz": 1, "3x2": 2, "2x2small": 3, "2x2": 4}
     sh.sort(key=lambda s: (order[s["space"]], s["lo"], s["p"]))
     return sh
 
